@@ -167,6 +167,7 @@ pub fn run_config(cid: &str, ls: &[L], universe: &[u64], out: &mut Out, rng: &mu
 }
 
 pub fn run(a: &Args) {
+    scn::silence_panics();
     let mut out = Out::create(&a.str("out", "index.ndjson"));
     let mut rng = Rng::new(a.num("seed", 1) ^ 0xC17);
     let mut n = 0;
@@ -205,6 +206,33 @@ pub fn run(a: &Args) {
         let mut universe: Vec<u64> = (1..=nids).collect();
         universe.push(nids + 5);
         run_config(&format!("r{i}"), &ls, &universe, &mut out, &mut rng);
+        n += 1;
+    }
+    // totals beyond 32 bits: few packs of gigabytes each (sizes in MiB so that the trace stays within TLC's integers)
+    for i in 0..a.num("big", 4) {
+        let npacks = 2 + rng.below(5);
+        let mut packs = Vec::new();
+        let mut sizes = Vec::new();
+        for p in 1..=npacks {
+            let tree = rng.chance(1, 3);
+            let mib: u64 = *rng.pick(&[1024u64, 2048, 3072, 4095, 1, 512]);
+            sizes.push(json!({"p": p, "t": if tree {"tree"} else {"data"}, "mib": mib}));
+            let blobs = json!([{"id": bid(p).to_hex().as_str(), "type": if tree {"tree"} else {"data"}, "offset": 0, "length": 100}]);
+            let ip: IndexPack = serde_json::from_value(json!({"id": pid(p).to_hex().as_str(), "blobs": blobs, "size": mib << 20})).unwrap();
+            packs.push(ip);
+        }
+        let mut totals = Vec::new();
+        for mode in ["full", "data-ids", "only-trees"] {
+            for (t, bt) in [("tree", BlobType::Tree), ("data", BlobType::Data)] {
+                let ps = packs.clone();
+                let r = std::panic::catch_unwind(std::panic::AssertUnwindSafe(|| VerifIndex::from_packs(ps, mode).total_size(bt)));
+                totals.push(match r {
+                    Ok(total) => json!({"mode": mode, "t": t, "outcome": "ok", "mib": total >> 20, "rem": total & 0xF_FFFF}),
+                    Err(_) => json!({"mode": mode, "t": t, "outcome": "panic", "mib": 0, "rem": 0}),
+                });
+            }
+        }
+        out.rec(&json!({"kind":"bigtotal","id":format!("big{i}"),"sizes":sizes,"totals":totals}));
         n += 1;
     }
     _ = out.finish();
